@@ -931,6 +931,8 @@ def run_c12(ctx):
     if ctx.quick:
         lays = [c for c in lays if len(c['shape']) >= 2 or len(c['fail']) == 1]
         lays = [c for k, c in enumerate(lays) if len(c['shape']) >= 2 or k % 2 == 0]    # all >= 2-d ones, half of the others
+    else:
+        lays = lays[::2]                   # (rotations of 7 / 3 layouts: a stride of 2 keeps every layout)
     cases += lays
     n_enum = len(cases)
     # 3. code -> spec: random results outside the enumerated domain (rendered and judged in the same batches)
